@@ -326,6 +326,14 @@ def term_shapes():
         ("BVULT", u, v), ("Equals", ("BVAdd", u, v), ("BVNot", u)), ("BVSLE", ("BVConcat", u, v), ("BVZExt", u, 4)),
         ("Equals", ("BVExtract", u, 1, 2), ("BVExtract", v, 0, 1)), ("Equals", ("BVToNatural", u), x),
         ("LT", ("BVToNatural", u), ("BVToNatural", v)), ("Equals", ("StrLength", st), ("StrLength", ("StrConcat", st, st))),
+        # applications with arguments of several kinds: a non-Boolean term first, Boolean arguments after it, and the
+        # same non-Boolean term used again outside the application
+        ("And", ("fun", "pq", BOOL, (INT, BOOL), ("Plus", x, ("lit", 1, INT)), b), ("LE", ("Plus", x, ("lit", 1, INT)), ("lit", 3, INT))),
+        ("Or", ("fun", "pq3", BOOL, (REAL, BOOL, BOOL), ("Plus", r, s_), a, b), ("LT", ("Plus", r, s_), r)),
+        ("Equals", ("fun", "gq", INT, (("BV", 4), BOOL), ("BVAdd", u, v), a), ("BVToNatural", ("BVAdd", u, v))),
+        # sorts that differ in structure but print alike: an instance of a parametric sort and a 0-ary sort of that name
+        ("And", ("Equals", S("pa1", ("CUSTOM", "Pq", (("CUSTOM", "Aq"),))), S("pa2", ("CUSTOM", "Pq", (("CUSTOM", "Aq"),)))),
+         ("exists", [("pm1", ("CUSTOM", "Pq{Aq}"))], ("Not", ("Equals", S("pm1", ("CUSTOM", "Pq{Aq}")), S("pm2", ("CUSTOM", "Pq{Aq}")))))),
         # array values whose contents are terms (symbols, applications), not constants
         ("Equals", ("Array", ("type", INT), x), arr), ("Equals", ("Array", ("type", INT), ("lit", 0, INT), ("dict", (("lit", 1, INT), f(y)))), arr),
         ("Equals", ("Array", ("type", INT), ("lit", 0, INT), ("dict", (("lit", 1, INT), ("BVToNatural", u)))), arr),
